@@ -9,7 +9,7 @@ history (`script` = ops joined by `,`, fields of an op joined by `.`); the reply
 * `hash <hex>`                                         → `ok <u32>`            (`lyht_hash`)
 * `fixed <n>`                                          → `ok <u32>`            (`lyht_get_fixed_size`)
 * `hist <size> <resize> <ve> <rve|-> <cve|-> <script>` → `ok <tok>*`  ops `i/j/n/m/r/f/x.<hash>.<val>`, `D`, `R`
-* `dict <size> <mask> <script>`                        → `ok <tok>*`  ops `i.<hex>.<len>.<alias>`, `z.<hex>`,
+* `dict <size> <mask> <script>` (`dictf`: with fixes/F50.diff) → `ok <tok>*`  ops `i.<hex>.<len>.<alias>`, `z.<hex>`,
                                                          `r.<hex>`, `d.<hex>.<alias>`, `D`
 
 `hist` runs the L1 model and, in lockstep, the L2 model; a difference between `toL2` of the L1 state and the L2
@@ -117,7 +117,7 @@ def dictDump (d : Dict) : String :=
 /-- does the dictionary hold the string (the harness then holds a pointer to it) -/
 def holds (d : Dict) (s : Bytes) : Bool := d.content.any fun r => r.1 == s
 
-def stepDict (H : Bytes → UInt32) (d : Dict) (op : String) : Dict × String :=
+def stepDict (fixed : Bool) (H : Bytes → UInt32) (d : Dict) (op : String) : Dict × String :=
   match op.splitOn "." with
   | ["D"] => (d, dictDump d)
   | ["i", hx, ls, al] =>
@@ -127,13 +127,13 @@ def stepDict (H : Bytes → UInt32) (d : Dict) (op : String) : Dict × String :=
       else if al == "1" && !holds d v then (d, "NoPtr")
       else
         let len := if len = 0 then v.length else len
-        let (r, d') := d.insert H v len false (al == "1")
+        let (r, d') := if fixed then d.insertFixed H v len false (al == "1") else d.insert H v len false (al == "1")
         (d', showD r d')
     | _, _ => (d, "BadArg")
   | ["z", hx] =>
     match Hex.dec hx with
     | some v => if v.contains 0 then (d, "BadArg") else
-        let (r, d') := d.insert H v v.length true false
+        let (r, d') := if fixed then d.insertFixed H v v.length true false else d.insert H v v.length true false
         (d', showD r d')
     | none => (d, "BadArg")
   | ["r", hx] =>
@@ -153,11 +153,11 @@ def stepDict (H : Bytes → UInt32) (d : Dict) (op : String) : Dict × String :=
     | none => (d, "BadArg")
   | _ => (d, "BadOp")
 
-def runDict (size : Nat) (mask : UInt32) (ops : List String) : List String :=
+def runDict (fixed : Bool) (size : Nat) (mask : UInt32) (ops : List String) : List String :=
   let H : Bytes → UInt32 := fun s => Jenkins.hash s &&& mask
   let rec go (d : Dict) : List String → List String
     | [] => []
-    | o :: os => let (d', t) := stepDict H d o; t :: go d' os
+    | o :: os => let (d', t) := stepDict fixed H d o; t :: go d' os
   go (Dict.init size) ops
 
 def handle (op : String) (args : List String) : String :=
@@ -177,7 +177,11 @@ def handle (op : String) (args : List String) : String :=
     | _, _, _, _, _ => "err BadArg"
   | "dict", [size, mask, script] =>
     match size.toNat?, mask.toNat? with
-    | some s, some m => "ok " ++ " ".intercalate (runDict s (UInt32.ofNat m) (script.splitOn ","))
+    | some s, some m => "ok " ++ " ".intercalate (runDict false s (UInt32.ofNat m) (script.splitOn ","))
+    | _, _ => "err BadArg"
+  | "dictf", [size, mask, script] =>      -- dict.c with fixes/F50.diff applied
+    match size.toNat?, mask.toNat? with
+    | some s, some m => "ok " ++ " ".intercalate (runDict true s (UInt32.ofNat m) (script.splitOn ","))
     | _, _ => "err BadArg"
   | _, _ => "err BadOp"
 
